@@ -232,6 +232,8 @@ def run(rep, tier):
         rep.call(rounding.round_div, rep, prog, "C06.round-div")
         from ..engines import type_tables
         rep.call(type_tables.recip_table, rep, prog, "C06.recip-table")
+        rep.call(type_tables.recip_table16, rep, prog, "C06.recip-table16")
+        rep.call(type_tables.recip_table16, rep, prog, "C06.recip-table16")
         if cfg.startswith("x86"):
             rep.call(alphapair.provenance, rep, prog, "C06.provenance")
         if cfg.startswith("x86") or cfg == "wasm":
